@@ -1,7 +1,7 @@
 SPECIFICATION Spec
 CONSTANTS
     MaxPts = 3
-    K = 1
+    K = 2
     BufSize = 2
     Topos <- MCTopos
     StopKinds <- BothKinds
